@@ -83,18 +83,13 @@ Theorem C11_refuted_scalar_shared_chain : gwf w_shared = true /\ g_no_scalar_sha
   gimpl_run w_shared 6 = ErrIndex.
 Proof. repeat split; vm_compute; reflexivity. Qed.
 Print Assumptions C11_refuted_scalar_shared_chain.
-(* vectorize=True: a chain whose members come from ALL units of the source vector, each once, in an order other than
-   0..n-1 reads the vector unpermuted (the test is sorted(src_indices) == range(n)): the two edges swap their sources *)
+(* regression (fix D45): a chain whose members come from all units of the source vector in another order than 0..n-1 used
+   to read the vector unpermuted; the repaired mechanism is inside the guards and meets the specification *)
 Definition w_perm := mkGC dt8 true 0 [S1; mkNode true 0 (mkq 3 1) (mkq 3 2); T0]
   [mkG 1 2 (mkq 2 1) (Some (mkq 2 1, Some (mkq 1 1))); mkG 0 2 (mkq (-1) 2) (Some (mkq 2 1, Some (mkq 1 1)))].
-Theorem C11_refuted_permuted_sources : gwf w_perm = true /\ g_own_source w_perm = false /\
-  impl_srcs w_perm = [0; 1]%nat /\ spec_srcs w_perm = [1; 0]%nat /\
-  gimpl_run w_perm 8 <> Ok (gspec_run w_perm 8).
-Proof.
-  split; [vm_compute; reflexivity|]. split; [vm_compute; reflexivity|]. split; [vm_compute; reflexivity|].
-  split; [vm_compute; reflexivity|]. apply res_eqb_false_neq. vm_compute. reflexivity.
-Qed.
-Print Assumptions C11_refuted_permuted_sources.
+Example C11_permuted_sources_ok : gwf w_perm = true /\ gguards w_perm = true /\ gimpl_run w_perm 8 = Ok (gspec_run w_perm 8).
+Proof. split; [vm_compute; reflexivity|]. split; [vm_compute; reflexivity|]. apply C11_partial; vm_compute; reflexivity. Qed.
+Print Assumptions C11_permuted_sources_ok.
 Theorem C11_full_refuted : ~ C11_full_statement.
 Proof. intros H. destruct C11_refuted_undelayed_kernel as [Hw [_ Hne]]. apply Hne, H, Hw. Qed.
 Print Assumptions C11_full_refuted.
